@@ -232,6 +232,42 @@ func runC05(c *rt.Ctx) {
 			}
 		}
 	}
+	// the mechanism the property rests on: every write of a value carries a token no other write in
+	// the life of the process has carried (two writes with one token cannot be told apart once their
+	// entries mix). 6 000 writes (thorough 70 000) over two connections and changing keys; the tokens
+	// in the metadata the backend receives must be pairwise distinct.
+	if c.Mine(7) {
+		InBubble(c.T, func() {
+			st := fakemc.NewStore("L1")
+			hs := []chunked.Handler{chunked.NewHandler(fakemc.NewConn(st, "t1")), chunked.NewHandler(fakemc.NewConn(st, "t2"))}
+			n := 6000
+			if c.Thorough() {
+				n = 70000
+			}
+			seen := map[string]int{}
+			for i := 0; i < n; i++ {
+				k := fmt.Sprintf("tok-%d", i%37)
+				kind := "set"
+				if i%5 == 3 {
+					kind = "append"
+				}
+				CallHandler(hs[i%2], wire.Op{Kind: kind, Key: k, Val: fmt.Sprintf("v%d", i), Flags: uint32(i)})
+				c.Eval(1)
+				meta := st.Lookup(k + "-meta")
+				if meta == nil || len(meta.Val) < 40 {
+					continue
+				}
+				tok := string(meta.Val[24:40])
+				if j, ok := seen[tok]; ok && j != i {
+					c.Violation("C05 token-reused", fmt.Sprintf("write number %d carries the same token as write number %d (%d writes apart): entries of the two can no longer be told apart", i, j, i-j), map[string]interface{}{"first": j, "second": i})
+					break
+				}
+				seen[tok] = i
+			}
+			c.Distinct("tokens")
+			c.Nontrivial("tokens")
+		})
+	}
 	c.Set("max_chunks", maxN)
 	exploreChunkRaces(c, &item)
 }
